@@ -533,6 +533,15 @@ pub fn run_reader_dev(dev: &Dev, ops: &[Value], ctx: &ReadCtx, t: &mut TraceOut)
                 let res = collect_raw(&mut rd, &pcs[i], take);
                 t.ev(json!({"ev":"r_raw","pc":i + 1,"take":opt(&take, |x| json!(x)),"res":res}));
             }
+            "queue" => {
+                let pcs = rd.pointclouds();
+                let i = op["pc"].as_u64().unwrap_or(0) as usize;
+                let max = op.get("max_records").and_then(|x| x.as_u64()).unwrap_or(u64::MAX);
+                if i >= pcs.len() || pcs[i].records > max {
+                    continue;
+                }
+                crate::queue::queue_op(&dev.snapshot(), &pcs[i], i, op["policy"].as_str().unwrap_or("iter"), op["seed"].as_u64().unwrap_or(1), t);
+            }
             "blobs" => {
                 // every blob we know of: direct ones and those the reader lists for images
                 let mut all: Vec<(String, u64, u64)> = ctx.direct_blobs.iter().map(|(o, l)| ("direct".to_string(), *o, *l)).collect();
@@ -653,7 +662,7 @@ pub fn run_reader_dev(dev: &Dev, ops: &[Value], ctx: &ReadCtx, t: &mut TraceOut)
 
 /// Read files produced by the independent encoder: each input line is {"name", "scene", "bytes"}.
 /// Emits reset, s_scene, final and the reader events.
-pub fn read_cases(cases: &str, from: usize, out: &str) -> std::io::Result<()> {
+pub fn read_cases(cases: &str, from: usize, npol: usize, out: &str) -> std::io::Result<()> {
     use std::io::{BufRead, Write};
     // appends, and reports the case in progress, so that a supervisor can attribute an abort and resume behind it
     let mut t = TraceOut::append(out)?;
@@ -676,6 +685,12 @@ pub fn read_cases(cases: &str, from: usize, out: &str) -> std::io::Result<()> {
         for k in 0..n {
             ops.push(json!({"op":"raw","pc":k}));
             ops.push(json!({"op":"simple_count","pc":k}));
+            // schedules of the directly driven queue reader: all four, or two of them rotating with the case
+            let all = ["iter", "eager", "random", "random"];
+            for pi in 0..npol.min(4) {
+                let policy = all[(i + pi * (if npol >= 4 { 1 } else { 2 })) % 4];
+                ops.push(json!({"op":"queue","pc":k,"policy":policy,"seed":i * 7 + pi}));
+            }
         }
         ops.push(json!({"op":"xml"}));
         run_reader(&img, &ops, &ReadCtx { direct_blobs: vec![] }, &mut t);
@@ -712,6 +727,7 @@ pub fn run_programs(progs: &str, out: &str) -> std::io::Result<()> {
                 for k in 0..n {
                     ops2.push(json!({"op":"raw","pc":k}));
                     ops2.push(json!({"op":"hints","pc":k}));
+                    ops2.push(json!({"op":"queue","pc":k,"policy": if (i + k) % 2 == 0 {"random"} else {"iter"},"seed":i,"max_records":3000}));
                 }
             } else {
                 ops2.push(o);
